@@ -13,6 +13,7 @@ import (
 	"strings"
 	"sync"
 
+	"google.golang.org/protobuf/encoding/prototext"
 	"google.golang.org/protobuf/proto"
 	"google.golang.org/protobuf/reflect/protoreflect"
 )
@@ -165,4 +166,11 @@ func Body(m proto.Message) string {
 	bodyTable[s] = string(c)
 	bodyMu.Unlock()
 	return s
+}
+
+func prototextLine(m proto.Message) string {
+	if m == nil {
+		return "<nil>"
+	}
+	return strings.Join(strings.Fields(prototext.MarshalOptions{Multiline: false}.Format(m)), " ")
 }
